@@ -7,7 +7,7 @@ import numpy as np
 GEOMS = ["box", "tight", "logbox", "mixedlog", "unbounded", "x0_on_bound", "x0_absent", "mixed_unbounded"]
 TARGETS = ["quad", "abs", "plateau", "ties"]
 MODES = ["det", "auto", "decl", "he"]
-CONS = [None, "ball", "halfspace", "slab", "ring"]   # "sliver": forced rare path (almost every ES candidate infeasible)
+CONS = [None, "ball", "halfspace", "slab", "ring", "nanregion"]   # "sliver": forced rare path (almost every ES candidate infeasible)
 
 
 def make_spec(rng, D=None, geom=None, target=None, mode=None, cons=None, opt_loc=None, options=None, seed=None):
@@ -161,7 +161,7 @@ def build(spec, fault=None):
     cons_fn = None
     ck = spec.get("cons")
     if ck:
-        r = {"ball": 2.5, "halfspace": 0.4, "slab": 0.35, "ring": 3.0, "sliver": 0.04, "tinyball": 1e-4, "lattice": 0.5}[ck]
+        r = {"ball": 2.5, "halfspace": 0.4, "slab": 0.35, "ring": 3.0, "sliver": 0.04, "tinyball": 1e-4, "lattice": 0.5, "nanregion": 1.0}[ck]
         if x0 is not None:
             x0z = z_of(x0) * 4
         else:
@@ -169,7 +169,7 @@ def build(spec, fault=None):
             # ball/half-space/slab wide enough to contain the whole plausible box (any drawn x0 is feasible)
             mid = [math.sqrt(plb[i] * pub[i]) if logc[i] else 0.5 * (plb[i] + pub[i]) for i in range(D)]
             x0z = z_of(mid) * 4
-            r = {"ball": 2.2 * math.sqrt(D), "halfspace": 2.1 * D, "slab": 2.1, "ring": 3.0, "sliver": 2.1, "tinyball": 2.2 * math.sqrt(D), "lattice": 0.5}[ck]
+            r = {"ball": 2.2 * math.sqrt(D), "halfspace": 2.1 * D, "slab": 2.1, "ring": 3.0, "sliver": 2.1, "tinyball": 2.2 * math.sqrt(D), "lattice": 0.5, "nanregion": 2.5}[ck]
 
         def cons_fn(X):
             X = np.atleast_2d(np.asarray(X, dtype=float))
@@ -182,6 +182,9 @@ def build(spec, fault=None):
                     # (mesh >= 1/8 of the plausible box) are feasible, fine-grid ES candidates almost never are
                     d = (z - x0z) / r
                     out[j] = float(np.max(np.abs(d - np.round(d)))) * r - 0.004
+                elif ck == "nanregion":   # a float-valued constraint that is NaN on part of the box (square root of a negative number there)
+                    s_ = float(z[0] - x0z[0]) + r
+                    out[j] = abs(float(z[-1] - x0z[-1])) - (0.6 * r + (math.sqrt(s_) if s_ >= 0 else float("nan")))
                 elif ck == "halfspace":
                     out[j] = float(np.sum(z - x0z)) - r
                 elif ck in ("slab", "sliver"):    # thin slab around the start point along the first coordinate
@@ -196,6 +199,9 @@ def build(spec, fault=None):
     if mode == "he":
         opts["specify_target_noise"] = True
     opts.update(spec.get("options", {}))
+    # alternative spellings of option values (JSON cannot carry NumPy scalars): {"option": "np.bool_(False)" | "np.int64(3)" | ...}
+    for k, v in (spec.get("np_options") or {}).items():
+        opts[k] = eval(v, {"np": np})
     arr = lambda v: None if v is None else np.array(v, dtype=float)
     return fun, arr(x0), arr(lb), arr(ub), arr(plb), arr(pub), cons_fn, opts, {"calls": calls, "clean": clean, "c": c}
 
